@@ -49,14 +49,17 @@ Qed.
 Lemma tev_eqb_spec a b : tev_eqb a b = true <-> a = b.
 Proof. apply pair_eqb_spec; [apply Nat.eqb_eq | apply cev_eqb_spec]. Qed.
 
-Lemma obs_eqb_spec a b : obs_eqb a b = true <-> a = b.
+Lemma aobs_eqb_spec a b : aobs_eqb a b = true <-> a = b.
 Proof.
-  destruct a as [t1 r1 l1 s1 d1 f1], b as [t2 r2 l2 s2 d2 f2]; unfold obs_eqb; simpl; split; intro H.
-  - apply andb_true_iff in H as [H H6]. apply andb_true_iff in H as [H H5]. apply andb_true_iff in H as [H H4].
-    apply andb_true_iff in H as [H H3]. apply andb_true_iff in H as [H1 H2].
-    apply (list_eqb_spec _ tev_eqb_spec) in H1. apply (proj1 (bool_eqb_spec _ _)) in H2. apply (list_eqb_spec _ bool_eqb_spec) in H3.
-    apply (list_eqb_spec _ Nat.eqb_eq) in H4. apply (proj1 (bool_eqb_spec _ _)) in H5. apply (proj1 (bool_eqb_spec _ _)) in H6. subst. reflexivity.
-  - injection H as -> -> -> -> -> ->. repeat (apply andb_true_iff; split).
+  destruct a as [t1 x1 r1 l1 s1 d1 f1], b as [t2 x2 r2 l2 s2 d2 f2]; unfold aobs_eqb; simpl; split; intro H.
+  - apply andb_true_iff in H as [H H7]. apply andb_true_iff in H as [H H6]. apply andb_true_iff in H as [H H5].
+    apply andb_true_iff in H as [H H4]. apply andb_true_iff in H as [H H3]. apply andb_true_iff in H as [H1 H2].
+    apply (list_eqb_spec _ (list_eqb_spec _ cev_eqb_spec)) in H1. apply (list_eqb_spec _ tev_eqb_spec) in H2.
+    apply (proj1 (bool_eqb_spec _ _)) in H3. apply (list_eqb_spec _ bool_eqb_spec) in H4.
+    apply (list_eqb_spec _ Nat.eqb_eq) in H5. apply (proj1 (bool_eqb_spec _ _)) in H6.
+    apply (proj1 (bool_eqb_spec _ _)) in H7. subst. reflexivity.
+  - injection H as -> -> -> -> -> -> ->. repeat (apply andb_true_iff; split).
+    + apply (list_eqb_spec _ (list_eqb_spec _ cev_eqb_spec)). reflexivity.
     + apply (list_eqb_spec _ tev_eqb_spec). reflexivity.
     + apply bool_eqb_spec. reflexivity.
     + apply (list_eqb_spec _ bool_eqb_spec). reflexivity.
@@ -64,6 +67,9 @@ Proof.
     + apply bool_eqb_spec. reflexivity.
     + apply bool_eqb_spec. reflexivity.
 Qed.
+
+Lemma obs_eqb_spec a b : obs_eqb a b = true <-> alpha a = alpha b.
+Proof. apply aobs_eqb_spec. Qed.
 
 (* ====================================================================================== *)
 (* 2. the executable statement implies the readable one                                      *)
@@ -97,7 +103,7 @@ Proof.
   apply andb_true_iff in H as [H H7]. apply andb_true_iff in H as [H H6]. apply andb_true_iff in H as [H H5].
   apply andb_true_iff in H as [H H4]. apply andb_true_iff in H as [H H3]. apply andb_true_iff in H as [H1 H2].
   apply (proj1 (bool_eqb_spec _ _)) in H6.
-  split; [|split; [|split; [|split; [|split; [|split; [|split]]]]]].
+  split; [|split; [|split; [|split; [|split; [|split; [|split; [|split]]]]]]].
   - destruct (o_deadlock o); [discriminate | reflexivity].
   - intros e He. rewrite forallb_forall in H2. apply H2. exact He.
   - apply (list_eqb_spec _ Nat.eqb_eq). exact H3.
@@ -109,7 +115,13 @@ Proof.
       apply orb_true_iff in H6 as [H6|H6]; [apply orb_true_iff in H6 as [H6|H6]|]; auto.
     + intro Hc. rewrite H6. destruct Hc as [ -> | [ -> | -> ] ]; simpl; rewrite ?orb_true_r; reflexivity.
   - intro Hr. rewrite Hr in H7. destruct (o_stops o); [reflexivity | discriminate].
-  - intro Hr. rewrite Hr in H7. apply (list_eqb_spec _ Nat.eqb_eq) in H7. rewrite H7. unfold stops_expected. destruct (main_stops (o_trace o)); reflexivity.
+  - intros Hr w Hw. rewrite Hr in H7. apply andb_true_iff in H7 as [H7 _]. rewrite forallb_forall in H7.
+    apply Nat.ltb_lt. apply H7. exact Hw.
+  - intros Hr Hnone w Hw. rewrite Hr in H7. apply andb_true_iff in H7 as [_ H7].
+    apply orb_true_iff in H7 as [H7|H7].
+    + apply existsb_exists in H7 as (b & Hb & ->). specialize (Hnone true Hb). discriminate.
+    + rewrite forallb_forall in H7. specialize (H7 w Hw). apply existsb_exists in H7 as (x & Hx & E).
+      apply Nat.eqb_eq in E. subst. exact Hx.
 Qed.
 
 Lemma stream_worker_sound routes base raised tr w s :
